@@ -13,6 +13,12 @@
   by id, the clock and the log agree after every phase. Hypothesis: an environment that refuses no
   cell by geofence (needed only by the closed form of the price update, as in `Properties/Full`).
 
+  Also here: the pre-step phase as the model composes it from the input files (`preStep_permW`:
+  price update, admission through the reader, cancellation in id order) and
+  `full_run_order_independent` - whole runs of the model (pre-step, driver phase, instructions,
+  vehicle updates, clock; same files, same shift table, same instruction lists) from two hand-out
+  orders of one state stay related after every step, with identical logs and reader states.
+
   Still outside (C01 stays PARTIAL): the file readers' own state (no hash order in it), the
   instruction generators, rankings and reporters - decided by the hash-seed runs.
 -/
@@ -233,6 +239,111 @@ theorem reachable_order_independent (hf : ∀ c, env.inFence c = true) {w0 w0' w
     exact ⟨v1, .step hv hp1, hw1⟩
 
 end
+
+/-! ### the pre-step phase from the input files, and whole runs -/
+
+section
+variable (env : Env)
+
+theorem admitRow_permW (cfg : Timed.Cfg) {w w' : World} (hw : PermW w w') (row : Timed.ReqRow) :
+    PermW (Timed.admitRow env cfg w row) (Timed.admitRow env cfg w' row) := by
+  unfold Timed.admitRow
+  rw [← hw.1.1.time]
+  refine ite_rel (fun _ => ?_) (fun _ => hw)
+  have ha := addRequest_permU env hw.1 row.req
+  cases hx : w.sim.addRequest env row.req <;> cases hy : w'.sim.addRequest env row.req <;>
+    rw [hx, hy] at ha <;> first | exact ha.elim | exact hw | skip
+  exact ⟨ha, by simp only [hw.2]⟩
+
+/-- **request admission from the file reader (`UpdateRequestsFromFile.update`)** -/
+theorem admitRequests_permW (cfg : Timed.Cfg) (rd : Timed.Reader Timed.ReqRow) {w w' : World} (hw : PermW w w') :
+    PermW (Timed.admitRequests env cfg rd w).1 (Timed.admitRequests env cfg rd w').1 ∧
+    (Timed.admitRequests env cfg rd w).2 = (Timed.admitRequests env cfg rd w').2 := by
+  unfold Timed.admitRequests
+  simp only [← hw.1.1.time]
+  refine ⟨?_, trivial⟩
+  generalize (rd.read (fun r => r.req.departure) w.sim.time).1 = rows
+  induction rows generalizing w w' with
+  | nil => exact hw
+  | cons r rs ih => exact ih (admitRow_permW env cfg hw r)
+
+theorem cancelOne_permW (cfg : Timed.Cfg) {w w' : World} (hw : PermW w w') (i : RequestId) :
+    PermW (Timed.cancelOne env cfg w i) (Timed.cancelOne env cfg w' i) := by
+  unfold Timed.cancelOne
+  rw [← hw.1.1.request? hw.1.2 i, ← hw.1.1.time]
+  cases w.sim.request? i with
+  | none => exact hw
+  | some r =>
+    simp only
+    refine ite_rel (fun _ => hw) (fun _ => ?_)
+    have hr := removeRequest_permU env hw.1 i
+    cases hx : w.sim.removeRequest env i <;> cases hy : w'.sim.removeRequest env i <;>
+      rw [hx, hy] at hr <;> first | exact hr.elim | exact hw | skip
+    exact ⟨hr, by simp only [hw.2]⟩
+
+/-- **cancellation (`CancelRequests.update`)**: the expired requests are visited in id order whatever
+    the order of the request map (`id_order_invariant`) -/
+theorem cancelRequests_permW (cfg : Timed.Cfg) {w w' : World} (hw : PermW w w') :
+    PermW (Timed.cancelRequests env cfg w) (Timed.cancelRequests env cfg w') := by
+  unfold Timed.cancelRequests
+  rw [← id_order_invariant (hw.1.1.requests.map Request.id)]
+  generalize sortBy (fun a b => decide (a ≤ b)) (w.sim.requests.map (·.id)) = order
+  induction order generalizing w w' with
+  | nil => exact hw
+  | cons i is ih => exact ih (cancelOne_permW env cfg hw i)
+
+/-- **the pre-step part of `Update.apply_update`** (price update, admission, cancellation) -/
+theorem preStep_permW (hf : ∀ c, env.inFence c = true) (cfg : Timed.Cfg) (names : Nat → List StationId)
+    (inp : Timed.Inputs) {w w' : World} (hw : PermW w w') :
+    PermW (Timed.preStep env cfg names inp w).1 (Timed.preStep env cfg names inp w').1 ∧
+    (Timed.preStep env cfg names inp w).2 = (Timed.preStep env cfg names inp w').2 := by
+  unfold Timed.preStep
+  simp only
+  obtain ⟨hp, hp2⟩ := priceUpdate_permU env hf hw.1 names inp.prices
+  have hw1 : PermW { w with sim := (Timed.priceUpdate env names inp.prices w.sim).1 }
+      { w' with sim := (Timed.priceUpdate env names inp.prices w'.sim).1 } := ⟨hp, hw.2⟩
+  obtain ⟨ha, ha2⟩ := admitRequests_permW env cfg inp.requests hw1
+  refine ⟨cancelRequests_permW env cfg ha, ?_⟩
+  rw [hp2, ha2]
+
+/-- one whole step of the model as `Update.apply_update` + `StepSimulation.update` compose it:
+    pre-step phase from the input files, driver phase, instruction phase, vehicle updates, clock -/
+def fullStep (cfg : Timed.Cfg) (names : Nat → List StationId) (tbl : List Shift.Entry)
+    (st : World × Timed.Inputs) (is : List Instr) : World × Timed.Inputs :=
+  let p := Timed.preStep env cfg names st.2 st.1
+  let w1 := Shift.driverUpdates env tbl p.1
+  let w2 := vehicleUpdates env (applyInstructions env w1 is)
+  ({ w2 with sim := w2.sim.tick }, p.2)
+
+/-- **C01 for whole runs of the model**: two runs fed with the same input files, the same shift
+    table and the same instruction lists, started from two hand-out orders of one state, stay two
+    hand-out orders of one state after every step - with identical event logs and identical reader
+    states -/
+theorem full_run_order_independent (hf : ∀ c, env.inFence c = true) (cfg : Timed.Cfg)
+    (names : Nat → List StationId) (tbl : List Shift.Entry) {w w' : World} (inp : Timed.Inputs)
+    (hw : PermW w w') (iss : List (List Instr)) :
+    PermW (iss.foldl (fullStep env cfg names tbl) (w, inp)).1 (iss.foldl (fullStep env cfg names tbl) (w', inp)).1 ∧
+    (iss.foldl (fullStep env cfg names tbl) (w, inp)).2 = (iss.foldl (fullStep env cfg names tbl) (w', inp)).2 := by
+  induction iss generalizing w w' inp with
+  | nil => exact ⟨hw, rfl⟩
+  | cons is rest ih =>
+    simp only [List.foldl_cons]
+    obtain ⟨hp, hp2⟩ := preStep_permW env hf cfg names inp hw
+    have h1 := driverUpdates_permW env tbl hp
+    have h2 := tick_permW (vehicleUpdates_permW env (applyInstructions_permW env h1 is))
+    have e1 : fullStep env cfg names tbl (w, inp) is =
+        ({ (vehicleUpdates env (applyInstructions env (Shift.driverUpdates env tbl (Timed.preStep env cfg names inp w).1) is)) with
+            sim := (vehicleUpdates env (applyInstructions env (Shift.driverUpdates env tbl (Timed.preStep env cfg names inp w).1) is)).sim.tick },
+         (Timed.preStep env cfg names inp w).2) := rfl
+    have e2 : fullStep env cfg names tbl (w', inp) is =
+        ({ (vehicleUpdates env (applyInstructions env (Shift.driverUpdates env tbl (Timed.preStep env cfg names inp w').1) is)) with
+            sim := (vehicleUpdates env (applyInstructions env (Shift.driverUpdates env tbl (Timed.preStep env cfg names inp w').1) is)).sim.tick },
+         (Timed.preStep env cfg names inp w').2) := rfl
+    rw [e1, e2, ← hp2]
+    exact ih _ h2
+
+end
+
 
 end C01
 end Hive
